@@ -434,7 +434,9 @@ void mmd_export_image_latex(DString * out, const char * source, token * text, li
 
 		if ((text && text->len > 3) || (link->title && link->title[0] != '\0')) {
 			if (link->title && link->title[0] != '\0') {
-				printf("\\caption[%s]{", link->title);
+				print_const("\\caption[");
+				mmd_print_string_latex(out, link->title);
+				print_const("]{");
 			} else {
 				print_const("\\caption{");
 			}
@@ -1379,7 +1381,7 @@ void mmd_export_token_latex(DString * out, const char * source, token * t, scrat
 					print_const("}{");
 					print(temp_note->label_text);
 					print_const("}{");
-					print(temp_note->clean_text);
+					mmd_print_string_latex(out, temp_note->clean_text);
 					print_const("}");
 
 					printf("\\gls{%s}", temp_note->label_text);
@@ -1479,10 +1481,13 @@ parse_citation:
 						}
 
 						if (temp_bool) {
-							printf("\\citet[%s]", temp_char);
+							print_const("\\citet[");
 						} else {
-							printf("~\\citep[%s]", temp_char);
+							print_const("~\\citep[");
 						}
+
+						mmd_print_string_latex(out, temp_char);
+						print_const("]");
 					}
 
 					if (temp_note) {
@@ -1617,7 +1622,7 @@ parse_citation:
 						print(temp_note->clean_text);
 
 						print_const("}{name=");
-						print(temp_note->clean_text);
+						mmd_print_string_latex(out, temp_note->clean_text);
 
 						print_const(", description={");
 
@@ -2406,7 +2411,7 @@ void mmd_define_glossaries_latex(DString * out, const char * source, scratch_pad
 			print(f->note->clean_text);
 
 			print_const("}{name=");
-			print(f->note->clean_text);
+			mmd_print_string_latex(out, f->note->clean_text);
 			print_const("}{");
 
 			mmd_export_token_tree_latex(out, source, f->note->content, scratch);
@@ -2425,7 +2430,7 @@ void mmd_define_glossaries_latex(DString * out, const char * source, scratch_pad
 		print_const("}{");
 		print(f->note->label_text);
 		print_const("}{");
-		print(f->note->clean_text);
+		mmd_print_string_latex(out, f->note->clean_text);
 		print_const("}\n\n");
 	}
 }
